@@ -586,3 +586,37 @@ def find_call_in_closures(ctx, body, pred):
             if pred(n1) or pred(n2):
                 out.append((cb, bi, c))
     return out
+
+
+# ---------------------------------------------------------------- comparison-site refusal
+def comparison_sites(fv, operand_pred):
+    """calls to PartialEq::eq/ne (or bin Eq/Ne statements) whose two operand renderings satisfy operand_pred"""
+    out = []
+    for bi, c in fv.b.calls():
+        nm = c.callee.name if c.callee else ""
+        if "cmp::PartialEq" in nm and (nm.endswith("::ne") or nm.endswith("::eq")) and len(c.args) == 2:
+            r0, r1 = render(fv.expr(c.args[0])), render(fv.expr(c.args[1]))
+            if operand_pred(r0, r1) or operand_pred(r1, r0):
+                out.append((bi, c, nm.endswith("::ne"), r0, r1))
+    return out
+
+
+def mismatch_refused(ctx, rid, body, operand_pred, key, what, sinks=None, floor=1, policy=True):
+    """for every comparison of the two designated operands: when they differ, no sink (default: success
+    return) is reachable"""
+    fv = fnview(ctx, body, policy)
+    sites = comparison_sites(fv, operand_pred)
+    ctx.ob(rid, len(sites) >= floor, f"{key}/comparison-present",
+           f"{what}: the comparison is no longer made in `{body.name}`", where=f"{body.file}:{body.line}",
+           sample=f"{len(sites)} comparison site(s)")
+    sinks = sinks if sinks is not None else success_blocks(fv)
+    for bi, c, is_ne, r0, r1 in sites:
+        equal_edges = fv.result_edges(bi, c, "err" if is_ne else "ok")
+        differ_edges = fv.result_edges(bi, c, "ok" if is_ne else "err")
+        live = fv.reach(0, cut_edges=equal_edges)
+        # only paths that go through this comparison matter
+        bad = [s for s in sinks if s[0] in live and any(s[0] in fv.reach(v, cut_edges=equal_edges) for (_, v) in differ_edges)]
+        ctx.ob(rid, bool(differ_edges) and not bad, f"{key}/mismatch-refused",
+               f"{what}: `{body.name}` can still succeed when `{r0[:80]}` differs from `{r1[:80]}`",
+               where=f"{body.file}:{c.line}", sample=f"{r0[:60]} vs {r1[:60]}: sink unreachable on the != edge")
+    return sites
